@@ -59,6 +59,22 @@ def main():
                 rows.append([[v.name for v in inp], getattr(out, 'name', repr(out))])
             tables[o.name] = rows
         ent['tables'] = tables
+        # the same tables asked for in the other orientation and then again in the default one
+        # (a table is a function of the operator, whatever order it is listed in)
+        rev = {}
+        for o in opers:
+            if o not in Meta.truth_functional_operators:
+                continue
+            try:
+                t1 = Model.truth_table(o, reverse=True)
+                t2 = Model.truth_table(o)
+                rev[o.name] = dict(
+                    reverse=[[[v.name for v in i], getattr(out, 'name', repr(out))] for i, out in zip(t1.inputs, t1.outputs)],
+                    reverse_mapping=[[[v.name for v in i], getattr(out, 'name', repr(out))] for i, out in t1.mapping.items()],
+                    again=[[[v.name for v in i], getattr(out, 'name', repr(out))] for i, out in zip(t2.inputs, t2.outputs)])
+            except Exception as e:
+                rev[o.name] = dict(error=f'{type(e).__name__}: {e}')
+        ent['tables_rev'] = rev
         # The truth function as the evaluator really calls it (instance call), to tie
         # truth_table() to value_of_operated().
         m = Model()
